@@ -97,13 +97,19 @@ def build(targets, timeout=1500):
     return r
 
 
+EVAL_MODULES = ['Model/Obs.vo', 'Model/Wire.vo', 'Model/FrameBuffer.vo', 'Model/WmHist.vo', 'Model/SettingsV.vo', 'Model/StreamFSM.vo',
+                'Gen/Kernels.vo', 'Spec/Rfc51.vo', 'Spec/Rfc812.vo']
+
+
 def property_build(pid):
     """Build Properties/<pid>.vo, always re-checking the property file itself so that the
     Print Assumptions output is captured on every run."""
     vo = os.path.join(COQ, 'Properties', pid + '.vo')
     if os.path.exists(vo):
         os.remove(vo)
-    r = build(['Properties/%s.vo' % pid])
+    # the modules the correspondence evaluates (scratch files Require them) are rebuilt with the property's closure: a regenerated
+    # Gen/*.v that the property's own proofs do not depend on would otherwise leave them stale ("inconsistent assumptions")
+    r = build(['Properties/%s.vo' % pid] + EVAL_MODULES)
     src = open(os.path.join(COQ, 'Properties', pid + '.v')).read()
     theorems = re.findall(r'^\s*(?:Theorem|Corollary)\s+([A-Za-z0-9_\']+)', src, re.M)
     examples = re.findall(r'^\s*Example\s+([A-Za-z0-9_\']+)', src, re.M)
